@@ -24,7 +24,7 @@ def witness_search(tier, seed):
     import itertools
     from simfile.sm import SMSimfile, SMChart
     import simfile
-    vals = [None, "", "a", "x:y", "a;b", "c\\d", "e//f", "line1\nline2", " sp "]
+    vals = [None, "", "a", "x:y", "a;b", "c\\d", "e//f", "line1\nline2", " sp ", "cr\rlf\r\nend"]
     keys = ["TITLE", "ATTACKS", "DISPLAYBPM", "FOO"]
     for k, v in itertools.product(keys, vals):
         for extra in (None, ["x", "y:z"], [" padded ", "\n  line\n"]):
@@ -44,9 +44,17 @@ def witness_search(tier, seed):
                 return dict(input=f"{k}={v!r} extradata={extra!r}", detail="charts differ after the round trip")
             if str(back) != text:
                 return dict(input=f"{k}={v!r}", detail="second serialization differs")
-            if type(simfile.loads(text)) is not SMSimfile:
+            auto = simfile.loads(text)
+            if type(auto) is not SMSimfile:
                 return dict(input=f"{k}={v!r}", detail="not auto-detected as SM")
+            if auto != sf or list(auto.items()) != list(sf.items()) or str(auto) != text:
+                return dict(input=f"{k}={v!r} extradata={extra!r}", detail=f"simfile.loads(str(sf)) is not the simfile: {k} = {auto.get(k)!r}")
     return None
 
 from pyvc.xcheck import MsdTextProbe   # noqa: E402
 THOROUGH_BOUNDED = [MsdTextProbe()]
+
+
+# supplier units (see props/suppliers.py): the strict parse of the statement goes through loads / load / the constructor
+from props import suppliers as _S   # noqa: E402
+UNITS = _S.extend(UNITS, _S.loaders("sm"))
